@@ -33,6 +33,41 @@ def run(ctx):
     header_parser_rule(ctx, "C10.2")
 
     # ---- C10.3 / C10.5 version gate
+    version_gate(ctx)
+
+    # ---- C10.4 never hangs
+    full = inline.inlined(facts, PM.cc_next.id, stop=lambda d: facts.fns[d].rec.get("local") and (not PM.same_file(d) or "{closure#" in d))
+    n = shared.own_deadlock_sites(ctx, "C10.4", fns=[full])
+    ctx.floor("C10.4 turn-waiting call sites", n, 3)
+
+    # ---- C10.7 the writer abandoned on new_request's error path must not release its successor early
+    # (decided on the evaluated writer chain, the same evaluation C01.3 uses: whatever the fields are called and however the wait is spelt)
+    import turn_rules as T, engine
+    c2 = engine.Ctx("C10", "quick", facts, 0)
+    T.rule_writer_chain(c2, "x-wait", "C10.7", "x-chain")
+    n7 = 0
+    for o in c2.obs:
+        if o.rule == "C10.7" and ("send-after-own-turn" in o.key or "used-writer" in o.key) or (o.rule == "x-chain" and o.key.endswith("|evaluates") and not o.ok):
+            n7 += 1
+            ctx.obs.append(o)
+    ctx.floor("C10.7 destructor obligations taken from the writer chain", n7, 2)
+    ctx.paths += c2.paths
+
+    # ---- C10.8 only ASCII heads reach the application: every line the head reader works on has been checked to be ASCII (a request
+    # target with other bytes is otherwise delivered: the target is copied without any check of its own)
+    ascii_rule(ctx, "C10.8")
+
+    # ---- C10.6 Expect handling in new_request
+    expect_rule(ctx, "C10.6")
+    return {}
+
+
+def version_gate(ctx):
+    """C10.3 / C10.5: the version gate of the parser as a truth table over representative versions"""
+    facts = ctx.facts
+    PM = PR.pmodel(facts)
+    f = PM.nxt
+    where = "%s:%d" % (f.file, f.line)
     paths = [p for p in PM.after_read(PR.Ok_(PR.RQ)) if p.end[0] not in PR.DEAD]
     pconds = []
     has_gate = False
@@ -72,31 +107,6 @@ def run(ctx):
     ctx.ob("C10.5", "%s|505-flushed" % PM.cc_next.id, "the 505 bytes are flushed before the parser waits for the next request (the connection is kept open, so nothing else would push them out)",
            has_gate and not bad_flush, where, None if not bad_flush else "no Write::flush after the 505 raw_print for versions %s" % bad_flush[:3])
 
-    # ---- C10.4 never hangs
-    full = inline.inlined(facts, PM.cc_next.id, stop=lambda d: facts.fns[d].rec.get("local") and (not PM.same_file(d) or "{closure#" in d))
-    n = shared.own_deadlock_sites(ctx, "C10.4", fns=[full])
-    ctx.floor("C10.4 turn-waiting call sites", n, 3)
-
-    # ---- C10.7 the writer abandoned on new_request's error path must not release its successor early
-    # (decided on the evaluated writer chain, the same evaluation C01.3 uses: whatever the fields are called and however the wait is spelt)
-    import turn_rules as T, engine
-    c2 = engine.Ctx("C10", "quick", facts, 0)
-    T.rule_writer_chain(c2, "x-wait", "C10.7", "x-chain")
-    n7 = 0
-    for o in c2.obs:
-        if o.rule == "C10.7" and ("send-after-own-turn" in o.key or "used-writer" in o.key) or (o.rule == "x-chain" and o.key.endswith("|evaluates") and not o.ok):
-            n7 += 1
-            ctx.obs.append(o)
-    ctx.floor("C10.7 destructor obligations taken from the writer chain", n7, 2)
-    ctx.paths += c2.paths
-
-    # ---- C10.8 only ASCII heads reach the application: every line the head reader works on has been checked to be ASCII (a request
-    # target with other bytes is otherwise delivered: the target is copied without any check of its own)
-    ascii_rule(ctx, "C10.8")
-
-    # ---- C10.6 Expect handling in new_request
-    expect_rule(ctx, "C10.6")
-    return {}
 
 
 def ascii_rule(ctx, rule):
